@@ -7,7 +7,7 @@ import itertools
 
 from ..cfg import CFG
 from ..astutil import inside
-from ..core import AnalysisError, const_value, walk_own
+from ..core import callee_is, AnalysisError, const_value, walk_own
 from ..tutil import EvUnknown, ev_term, lin, seq_parts, simp
 from ..defuse import DefUse, Terms, show, walk_term
 from ..defuse import key as tkey
@@ -502,7 +502,7 @@ def _digest(ctx, f):
     # read_fasta passes its options through
     rf = prog.func(FA + "read_fasta")
     calls = [n for n in ast.walk(rf.node) if isinstance(n, ast.Call)
-             and ast.unparse(n.func) == "digest"]
+             and callee_is(prog, rf, n, "digest")]
     ctx.require(len(calls) == 1, f"{rf.qual}: digest call not found")
     b = prog.bind(f, calls[0])
     exp = {"missed_cleavages": "missed_cleavages", "min_length":
